@@ -186,6 +186,7 @@ func lruAccounting(c *Ctx) {
 	R.Rule("R03d", "E5", "eviction loops: the loop guard is the strict negation of the fit condition currentSize + delta <= maxSize for exactly the delta added after the loop (bound and minimal eviction)", 3)
 	R.Rule("R03e", "E2+E3", "a list element obtained in one critical section and removed in a later one is stale; this is safe only because removeElement re-validates that the element is still the indexed one before it touches list, map, counters or the eviction queue", 3)
 	R.Rule("R04b", "E2+E3", "every removal from the index queues the removed entry's file for deletion; an overwrite queues a copy of the old value taken before the store that replaces it", 3)
+	R.Rule("R04g", "E2", "a refused Add leaves the index untouched: on every path to a false return of Add no entry was pushed, moved, stored in the map or overwritten (the caller deletes the file of a refused entry, so an entry indexed on such a path would have no file)", 2)
 	R.Rule("R05b", "E3", "eviction victims are taken from the back of the LRU list", 2)
 	R.Rule("R05d", "E2", "an item that cannot fit is rejected before anything is evicted (Add: rounded size > maxSize; Reserve: size > maxSize and size + reserved > maxSize)", 2)
 	R.Rule("R17a", "E2", "Reserve: the hard-limit rejection (507) dominates every eviction and every counter store", 3)
@@ -357,6 +358,9 @@ func (l *lruFlow) preAssign(x *Exec, as *ast.AssignStmt, s St) St {
 	// stores that replace the value of an indexed entry
 	if l.fn == "disk.(*SizedLRU).Add" && as.Tok == token.ASSIGN {
 		for _, lhs := range as.Lhs {
+			if ix, ok := ast.Unparen(lhs).(*ast.IndexExpr); ok && lruFieldOf(info, ix.X) == "cache" {
+				s = s.Set("mapstore", "1")
+			}
 			if t, ok := l.base.Term(x, lhs, s); ok && strings.HasSuffix(t, ".Value.(*entry).value") {
 				R.Check(s.Get("queuedOld") != "" || s.Get("oldcopy") != "", "R04b", l.c.Cfg+l.fn+":overwrite:copy-before-store", l.c.P.Pos(as.Pos()),
 					"the old value of an overwritten entry is copied (for the eviction queue) before it is replaced", "the entry value is overwritten before a copy of the old value was taken: the old file is never deleted", x.Trace()...)
@@ -565,6 +569,10 @@ func (l *lruFlow) exit(x *Exec, ret *ast.ReturnStmt, s St) {
 		}
 		if l.base.Bool(x, ret.Results[0], s) != "true" {
 			R.Check(zero && s.Get("tofront") == "" && s.Get("overwritten") == "", "R03c", site+":rejected", pos, "a false return of Add changes neither the counters nor the index", got, x.Trace()...)
+			R.Check(s.Get("tofront") == "" && s.Get("overwritten") == "" && s.Get("mapstore") == "" && s.Get("queuedOld") == "", "R04g", site+":index-untouched", pos,
+				"Add refuses before it touches the list, the map, an entry's value or the eviction queue",
+				fmt.Sprintf("Add returns false after the index was changed (list insert/move=%v, map store=%v, value overwritten=%v, old file queued=%v): the caller removes the refused file, the entry stays indexed without one",
+					s.Get("tofront") != "", s.Get("mapstore") != "", s.Get("overwritten") != "", s.Get("queuedOld") != ""), x.Trace()...)
 			return
 		}
 		v := paramTerm(fl, 1)
